@@ -57,12 +57,17 @@ def build_scenarios(families, tier, wd, seed):
     sbudget = {'quick': 600, 'thorough': 6000}[tier]
     if len(seeded) > sbudget:
         seeded = rnd.sample(seeded, sbudget)
+    # a token's expiry moment is fixed when it is created: time that passes BEFORE a restart counts (seeded change C10_4)
+    fixed = [[dict(op='create_user', c=1, name='ann', pwd='p1', active=True), dict(op='login', c=2, name='ann', pwd='p1'),
+              dict(op='create_pat', c=2, tok=1, ttl=2), dict(op='tick', by=1), dict(op='restart'), dict(op='tick', by=1), dict(op='tick', by=1)],
+             [dict(op='create_user', c=1, name='ann', pwd='p1', active=True), dict(op='login', c=2, name='ann', pwd='p1'),
+              dict(op='create_pat', c=2, tok=1, ttl=3), dict(op='tick', by=2), dict(op='restart'), dict(op='restart'), dict(op='tick', by=1), dict(op='clean')]]
     scenarios = []
-    for n, s in enumerate(paths + seeded + walks):
+    for n, s in enumerate(fixed + fixed + paths + seeded + walks):
         names, pwds = concrete_maps(rnd)
         scenarios.append(dict(id=f'auth-{n + 1}', family='credentials', cfg=dict(cache='off'), seed=rnd.randrange(1 << 30), conns=3,
                               names=names, pwds=pwds, steps=s))
-    return scenarios, {'credentials': dict(path_cover_scripts=len(paths), seeded_continuations=len(seeded), simulated_walks=len(walks))}
+    return scenarios, {'credentials': dict(path_cover_scripts=len(paths), seeded_continuations=len(seeded), simulated_walks=len(walks), fixed_scripts=2 * len(fixed))}
 
 
 def shard(scenarios, nshards):
